@@ -238,6 +238,26 @@ def spec_reassemble(ck, functional):
                                           'invariant and whose timer deque (2 symbolic entries) is sorted; assemble loop unrolled <= 6 fragments on the completing path' % MAXLEN)
 
 
+def spec_reassemble_from_empty(ck):
+    """panic sites of reassemble on any datagram, from a Fragments that holds nothing (used when the queue representation is
+    not the one the inductive specs know)"""
+    fn = ck.find(lambda: ck.db.method('Fragments', 'reassemble'), 'Fragments::reassemble')
+    if fn is None:
+        return
+    ex = ck.engine(loop_bound=8)
+    ex.overrides.append((re.compile(r'^<T as Fragmentable>::from_buffer$'), _deliver_override))
+    st = State()
+    timeout = Int(z3.BitVec('timeout', 64), 64)
+    ex.assume(st, z3.ULT(timeout.t, BV(1 << 40, 64)))
+    frs = Agg('Fragments', {0: Agg('Duration', {0: timeout}), 1: MapV('queue', (), 'common::fragment::ReassembleQueue', closed=True),
+                            2: SeqV.from_items([], kind='vecdeque')})
+    cell = st.alloc(frs)
+    buf = sym_bytes(ex, st, 'datagram')
+    ex.inputs = {'datagram': buf}
+    finals = ex.call_fn(st, fn, [Ref(cell, ()), buf])
+    ck.absorb(ex, 'Fragments::reassemble (empty state)', finals)
+
+
 def _reassemble_functional(ck, ex, finals, cell, buf, timeout, timer_items):
     hdr_total = buf.at(2)
     hdr_seq = buf.at(3)
@@ -352,7 +372,7 @@ def spec_timer(ck, functional):
             removes = [e for e in s.trace if e[0] == 'map.remove']
             nexp = sum([z3.If(z3.ULT(t.fields[1].fields[0].t, now), BV(1, 64), BV(0, 64)) for t in timer_items])
             ex.prove(s, 'C11/timer/removes-exactly-expired', BV(len(removes), 64) == nexp)
-            for i, e in enumerate(removes):
+            for i, e in enumerate(removes[:len(timer_items)]):
                 ex.prove(s, 'C11/timer/removed-id-matches', e[2] == timer_items[i].fields[0].t)
             ex.prove(s, 'C11/timer/deque-shrinks-by-expired', tq.len == BV(len(timer_items), 64) - nexp)
     ck.absorb(ex, 'Fragments::timer', finals)
@@ -541,12 +561,106 @@ def replay_plan(ob):
     return None
 
 
+def representation_known(ck):
+    """the inductive-step specs describe an arbitrary reachable ReassembleQueue by a representation invariant written for
+    `struct ReassembleQueue { bitmap: u128, fragments: Vec<Bytes> }` (bitmap: ones at received positions and above `total`).
+    They say nothing about a queue that is represented differently."""
+    f = ck.si.structs.get('ReassembleQueue')
+    t = getattr(ck.si, 'struct_types', {}).get('ReassembleQueue', {})
+    return f == ['bitmap', 'fragments'] and t.get('bitmap', '').replace(' ', '') == 'u128' and 'Vec<Bytes>' in t.get('fragments', '').replace(' ', '')
+
+
+def spec_fragments_history(ck, ndatagrams=3):
+    """representation-independent: a Fragments value that starts EMPTY receives `ndatagrams` fragments of one frame (same id,
+    same total in 2..3, any sequence numbers below total -- duplicates and any order included, payloads of 0..3 bytes):
+    a frame comes out exactly when its last missing fragment arrives, and it is the payloads in sequence-number order (for a
+    duplicated sequence number: the one that arrived first)."""
+    fn = ck.find(lambda: ck.db.method('Fragments', 'reassemble'), 'Fragments::reassemble')
+    if fn is None:
+        return
+    ex = ck.engine(loop_bound=8)
+    ex.overrides.append((re.compile(r'^<T as Fragmentable>::from_buffer$'), _deliver_override))
+    st = State()
+    timeout = Int(z3.BitVec('timeout', 64), 64)
+    ex.assume(st, z3.ULT(timeout.t, BV(1 << 40, 64)))
+    frs = Agg('Fragments', {0: Agg('Duration', {0: timeout}), 1: MapV('queue', (), 'common::fragment::ReassembleQueue', closed=True),
+                            2: SeqV.from_items([], kind='vecdeque')})
+    cell = st.alloc(frs)
+    fid = z3.BitVec('frame_id', 16)
+    total = z3.BitVec('frame_total', 8)
+    ex.assume(st, z3.And(z3.UGE(total, BV(2, 8)), z3.ULE(total, BV(3, 8))))
+    seqs, pays, dgrams = [], [], []
+    for k in range(ndatagrams):
+        sq = z3.BitVec('seq%d' % k, 8)
+        ex.assume(st, z3.ULT(sq, total))
+        pl = sym_bytes(ex, st, 'payload%d' % k, 3)
+        seqs.append(sq)
+        pays.append(pl)
+        hdr = Bytes.from_terms([z3.Extract(15, 8, fid), z3.Extract(7, 0, fid), total, sq])
+        dgrams.append(hdr.concat(pl, 'bytes'))
+    ex.inputs = dict([('frame_total', total)] + [('seq%d' % k, seqs[k]) for k in range(ndatagrams)] + [('payload%d' % k, pays[k]) for k in range(ndatagrams)])
+
+    def cover(k):       # all of 0..total-1 among seq_0..seq_k
+        return z3.And([z3.Implies(z3.ULT(BV(i, 8), total), z3.Or([seqs[j] == BV(i, 8) for j in range(k + 1)])) for i in range(3)])
+
+    def first_payload(i):
+        r = pays[ndatagrams - 1]
+        for j in range(ndatagrams - 2, -1, -1):
+            r = ex.ite(seqs[j] == BV(i, 8), pays[j], r)
+        return r
+    lab1 = 'C11/history/a-frame-comes-out-exactly-when-its-last-missing-fragment-arrives'
+    lab2 = 'C11/history/the-frame-is-the-payloads-in-sequence-order'
+    frontier = [st]
+    allf = []
+    reached = 0
+    for k in range(ndatagrams):
+        nxt = []
+        for s in frontier:
+            s2 = s.fork()
+            s2.frames = []
+            s2.status = 'running'
+            n0 = len(s2.trace)
+            for o in ex.call_fn(s2, fn, [Ref(cell, ()), dgrams[k]]):
+                allf.append(o)
+                if o.status != 'returned':
+                    continue
+                reached += 1
+                dl = [e for e in o.trace[n0:] if e[0] == 'deliver']
+                before = z3.Not(cover(k - 1)) if k else z3.BoolVal(True)
+                ex.prove(o, lab1, z3.Implies(before, cover(k) == z3.BoolVal(len(dl) == 1)))
+                if len(dl) == 1:
+                    for t in (2, 3):
+                        exp = first_payload(0)
+                        for i in range(1, t):
+                            exp = exp.concat(first_payload(i))
+                        prove_bytes_eq(ex, o, lab2, dl[0][1], exp, z3.And(before, cover(k), total == BV(t, 8)))
+                elif not dl:
+                    nxt.append(o)       # nothing delivered yet: the history goes on
+        frontier = nxt
+    if not reached:
+        ck.add('C11/history/reachability', 'vacuous', 'reassemble never returned in the model')
+    for f in ex.findings:
+        if not hasattr(f, 'target'):
+            f.target = 'fragments history'
+    ck.absorb(ex, 'Fragments::reassemble (history from empty)', allf)
+    ck.bounds['fragments-history'] = '%d datagrams of one frame into an empty Fragments: total 2..3, any sequence numbers < total (duplicates, any order), payloads <= 3 bytes' % ndatagrams
+
+
 def run_all(ck, functional):
     ck.plans.append(replay_plan)
-    spec_rq_new(ck, functional)
-    spec_rq_add(ck, functional)
-    spec_rq_assemble(ck, functional)
-    spec_reassemble(ck, functional)
+    known = representation_known(ck)
+    if functional:
+        spec_fragments_history(ck)
+    if known:
+        spec_rq_new(ck, functional)
+        spec_rq_add(ck, functional)
+        spec_rq_assemble(ck, functional)
+        spec_reassemble(ck, functional)
+    else:
+        ck.notes.append('ReassembleQueue is not represented as {bitmap: u128, fragments: Vec<Bytes>}: the inductive-step obligations '
+                        '(written over that representation) are not applied; the bounded history from an empty Fragments is')
+        # panic sites of reassemble on arbitrary datagrams from an empty state are still decided
+        spec_reassemble_from_empty(ck)
     spec_timer(ck, functional)
     spec_make_fragments_new(ck, functional)
     spec_make_fragments_next(ck, functional)
